@@ -200,13 +200,19 @@ def stepEvalBegin (cfg : Cfg) (s : St) (pen : Nat) (upid : Nat) : Except String 
       else if s.nEval ≥ cfg.maxfev then .error "C05 evaluation beyond maxfev"
       else .ok { s with ev := some ⟨pen, upid, 0, [], none, 0, false⟩, lastPen := pen, lastReq := none }
 
+/-- a user function called outside every evaluation: at a counted point it breaks C06 only, at a point that is never
+counted it also makes `nfev` untruthful (C05) -/
+def outsideMsg (counted : Bool) (what : String) : String :=
+  if counted then s!"C06 {what} called outside an evaluation"
+  else s!"C05,C06 {what} called at a point that is never counted as an evaluation"
+
 def stepObj (cfg : Cfg) (s : St) (pid : Nat) : Except String St :=
   match s.ev with
   | some c =>
     if c.got.isNone && pid = c.upid && !cfg.isFeas && c.objN = 0 then
       .ok { s with ev := some { c with objN := 1 } }
     else .error "C06 objective called twice, at another point, or after the values were used"
-  | none => .error "C06 objective called outside an evaluation"
+  | none => .error (outsideMsg (s.upids.contains pid) "objective")
 
 def stepCon (cfg : Cfg) (s : St) (j : Nat) (pid : Nat) : Except String St :=
   match s.ev with
@@ -214,7 +220,7 @@ def stepCon (cfg : Cfg) (s : St) (j : Nat) (pid : Nat) : Except String St :=
     if c.got.isNone && pid = c.upid && j < cfg.ncon && !c.cons.contains j then
       .ok { s with ev := some { c with cons := j :: c.cons } }
     else .error "C06 constraint function called twice, at another point, or after the values were used"
-  | none => .error "C06 constraint function called outside an evaluation"
+  | none => .error (outsideMsg (s.upids.contains pid) "constraint function")
 
 /-- the checks of a `val` event inside the evaluation `c` (none = fine) -/
 def valCheck (cfg : Cfg) (s : St) (c : EvalSt) (v : Nat) : Option String :=
